@@ -111,3 +111,35 @@ pub fn heap_walk_object(old_page: bool) {
     }
     crate::sched_point_hot();
 }
+
+/// Out-of-memory report (one of the stop-the-world operations named by C04): once the
+/// allocation ladder of a thread is exhausted, the report (message, stack trace, flush,
+/// exit) must be produced while that thread owns a stop-the-world operation.
+pub static HEAP_EXHAUSTED_BY: AtomicUsize = AtomicUsize::new(usize::MAX);
+pub static OOM_REPORTS: AtomicU64 = AtomicU64::new(0);
+
+pub fn heap_exhausted() {
+    if crate::is_active() {
+        HEAP_EXHAUSTED_BY.store(crate::current_task(), Ordering::Relaxed);
+    }
+}
+
+/// Called at the start of every trap report. `oom` = the trap is the out-of-memory trap.
+pub fn trap_report(oom: bool) {
+    if !crate::is_active() {
+        return;
+    }
+    let me = crate::current_task();
+    let owner = STW_OWNER.load(Ordering::Relaxed);
+    if owner != usize::MAX && owner != me {
+        fail("M-stw", &format!("task {} executes a trap (managed code) while the stop-the-world operation of task {} is active", me, owner));
+    }
+    if oom && HEAP_EXHAUSTED_BY.load(Ordering::Relaxed) == me {
+        OOM_REPORTS.fetch_add(1, Ordering::Relaxed);
+        if owner != me {
+            fail("M-stw", "the out-of-memory report of an exhausted allocation runs outside of a stop-the-world operation: the other threads are not stopped while it is produced");
+        }
+    }
+    // the report is not indivisible: other tasks may run while it is being written
+    crate::sched_point();
+}
